@@ -347,6 +347,9 @@ func c06Late(r *core.Result, s *session, env *core.Env) {
 		if cur := roundOf(n); cur != lastRound[n] {
 			lastRound[n] = cur
 			replay(n, "after a round change")
+		} else if ev.Kind == sim.EvDeliver && ev.Tag == "" {
+			// also in the middle of a round (some of the round's messages are in, others are not)
+			replay(n, "in the middle of a round")
 		}
 	})
 	// a party that panicked inside a call keeps its mutex: nothing more is delivered once a retransmission has failed
